@@ -9,7 +9,7 @@ from ..absint import Interp
 from ..model import AnalysisError, FuncInfo, dotted, norm, walk_no_nested
 from ..report import rule
 from ..shape import Alt, Lit, Node, Shaper, alts, chain, is_lit, nodes, seq_items
-from ..util import calls_named, cfg_of, is_const, is_name, key, kw, names_in, site_packages_source, strip_pre
+from ..util import allargs, argv, calls_named, cfg_of, is_const, is_name, key, kw, names_in, site_packages_source, strip_pre
 from .clients import _model_config
 
 RF = "client_generators.result_fields:"
@@ -76,8 +76,8 @@ def c05_r1(ctx):
     good = len(o) == 1 and isinstance(o[0].value, ast.Call) and dotted(o[0].value.func) == "generate_list_annotation"
     if good:
         c = o[0].value
-        sl = kw(c, "slice_") or (c.args[0] if c.args else None)
-        nv = kw(c, "nullable") or (c.args[1] if len(c.args) > 1 else None)
+        sl = kw(c, "slice_") or (allargs(c)[0] if allargs(c) else None)
+        nv = kw(c, "nullable") or (allargs(c)[1] if len(allargs(c)) > 1 else None)
         sl = strip_pre(sl) if sl is not None else None
         good = nv is not None and norm(nv) == "nullable" and isinstance(sl, ast.Call) and dotted(sl.func) == "parse_operation_field_type" \
             and is_const(_call_kw(sl, params, "nullable"), True) and "type_.of_type" in norm(_call_kw(sl, params, "type_") or ast.Constant(0))
@@ -128,11 +128,11 @@ def c05_r2(ctx):
     for fn, helper in (("parse_object_type", "generate_annotation_name"), ("parse_enum_type", "generate_annotation_name")):
         fi = repo.func(RF + fn)
         rets = [n for n in walk_no_nested(fi.node) if isinstance(n, ast.Return)]
-        good = len(rets) == 1 and isinstance(rets[0].value, ast.Call) and dotted(rets[0].value.func) == helper and len(rets[0].value.args) == 2 and norm(rets[0].value.args[1]) == "nullable"
+        good = len(rets) == 1 and isinstance(rets[0].value, ast.Call) and dotted(rets[0].value.func) == helper and norm(argv(rets[0].value, 1, "nullable") or ast.Constant(0)) == "nullable"
         ctx.check(good, key(fi, "flag"), f"{fn} does not wrap by the incoming nullable flag", fi.loc(), okmsg=f"{fn}: wraps by the incoming flag")
     it = repo.func(RF + "parse_interface_type")
     rets = [n for n in walk_no_nested(it.node) if isinstance(n, ast.Return)]
-    good = len(rets) == 2 and all(isinstance(r.value, ast.Call) and (norm(kw(r.value, "nullable") or (r.value.args[1] if len(r.value.args) > 1 else ast.Constant(0))) == "nullable") for r in rets)
+    good = len(rets) == 2 and all(isinstance(r.value, ast.Call) and (norm(kw(r.value, "nullable") or (allargs(r.value)[1] if len(allargs(r.value)) > 1 else ast.Constant(0))) == "nullable") for r in rets)
     ctx.check(good, key(it, "flag"), "parse_interface_type does not wrap by the incoming nullable flag on both paths", it.loc(), okmsg="parse_interface_type: wraps by the incoming flag")
     # directives
     pd = repo.func(RF + "parse_directives")
@@ -188,7 +188,7 @@ def c05_r3(ctx):
     ctx.check(good, key(fi, "Literal"), f"__typename annotation is {v!r}"[:200], fi.loc(), okmsg="__typename: Literal[...]")
     comps = [n for n in walk_no_nested(fi.node) if isinstance(n, ast.ListComp)]
     p = fi.node.args.args[0].arg
-    good = len(comps) == 1 and norm(comps[0].generators[0].iter) == f"sorted({p})" and not comps[0].generators[0].ifs and "f'\"{" + norm(comps[0].generators[0].target) + "}\"'" == norm(comps[0].elt.args[0]) if comps and isinstance(comps[0].elt, ast.Call) and comps[0].elt.args else False
+    good = len(comps) == 1 and norm(comps[0].generators[0].iter) == f"sorted({p})" and not comps[0].generators[0].ifs and "f'\"{" + norm(comps[0].generators[0].target) + "}\"'" == norm(allargs(comps[0].elt)[0]) if comps and isinstance(comps[0].elt, ast.Call) and allargs(comps[0].elt) else False
     ctx.check(bool(good), key(fi, "values"), "Literal members are not exactly the (quoted) given type names", fi.loc(), okmsg="Literal members = the given type names")
     pf = repo.func(RF + "parse_operation_field")
 
@@ -299,8 +299,8 @@ def c06_r1(ctx):
         ann = strip_pre(o[0].value.elts[0])
         good = isinstance(ann, ast.Call) and dotted(ann.func) == "generate_list_annotation"
         if good:
-            sl = kw(ann, "slice_") or ann.args[0]
-            nv = kw(ann, "nullable") or (ann.args[1] if len(ann.args) > 1 else None)
+            sl = kw(ann, "slice_") or allargs(ann)[0]
+            nv = kw(ann, "nullable") or (allargs(ann)[1] if len(allargs(ann)) > 1 else None)
             inner = [c for c in ast.walk(sl) if isinstance(c, ast.Call) and dotted(c.func) == "parse_input_field_type"]
             good = nv is not None and norm(nv) == "nullable" and len(inner) >= 1 and all(is_const(_call_kw(c, params, "nullable"), True) for c in inner) \
                 and all("type_.of_type" in norm(_call_kw(c, params, "type_") or ast.Constant(0)) for c in inner)
@@ -320,7 +320,7 @@ def c06_r1(ctx):
     ctx.check(bool(d) and is_const(d[0][1], True), key(fi, "entry default"), "the entry default of `nullable` must be True", fi.loc(), okmsg="entry: nullable defaults to True")
     pd = repo.func("client_generators.input_types:InputTypesGenerator._parse_input_definition")
     cs = calls_named(pd.node, "parse_input_field_type")
-    good = len(cs) == 1 and norm(cs[0].args[0] if cs[0].args else kw(cs[0], "type_")) == "field.type" and _call_kw(cs[0], params, "nullable") is None
+    good = len(cs) == 1 and norm(argv(cs[0], 0, "type_") or ast.Constant(0)) == "field.type" and _call_kw(cs[0], params, "nullable") is None
     ctx.check(good, key(pd, "entry call"), "input field types are not parsed from field.type with the default flag", pd.loc(), okmsg="entry call: field.type, nullable=True")
 
 
@@ -330,7 +330,7 @@ def c06_r2(ctx):
     fi = repo.func(IF + "parse_input_const_value_node")
     kinds, tree = _const_value_kinds()
     supers = {"ConstListValueNode": "ListValueNode", "ConstObjectValueNode": "ObjectValueNode"}
-    tested = {norm(n.args[1]) for n in walk_no_nested(fi.node) if isinstance(n, ast.Call) and is_name(n.func, "isinstance") and len(n.args) == 2 and is_name(n.args[0], "node")}
+    tested = {norm(allargs(n)[1]) for n in walk_no_nested(fi.node) if isinstance(n, ast.Call) and is_name(n.func, "isinstance") and len(allargs(n)) == 2 and is_name(allargs(n)[0], "node")}
     for k in kinds:
         ctx.check(k in tested or supers.get(k) in tested, key(fi, f"kind {k}"), f"default values of kind {k} are not translated (the field would silently lose its default)", fi.loc(), okmsg=f"{k} handled")
     want = {
@@ -551,7 +551,7 @@ def c03_r1(ctx):
             if f"dict_.keys.append(generate_constant({org}))" not in effs:
                 probs.append(f"the variables dict key is not the GraphQL variable name ({[e for e in effs if 'keys' in e]})")
             vals = [e for e in effs if e.startswith("dict_.values.append(")]
-            if len(vals) != 1 or not vals[0].startswith(f"dict_.values.append(self._get_dict_value({pname}, "):
+            if len(vals) != 1 or not vals[0].startswith(f"dict_.values.append(self._get_dict_value(name={pname}, "):
                 probs.append(f"the variables dict value is not the parameter derived from the same variable ({vals})")
             lst = "optional_args" if nullable else "required_args"
             apps = [e for e in effs if e.startswith(f"{lst}.append(")]
@@ -647,7 +647,7 @@ def c03_r5(ctx):
     cs = calls_named(am.node, "self.get_variable_names")
     envm = {st.targets[0].id if isinstance(st.targets[0], ast.Name) else norm(st.targets[0]): st.value for st in am.node.body if isinstance(st, ast.Assign)}
     tup = [st for st in am.node.body if isinstance(st, ast.Assign) and isinstance(st.targets[0], ast.Tuple) and "self.arguments_generator.generate(" in norm(st.value)]
-    good = good and len(cs) == 1 and len(cs[0].args) == 1 and tup and norm(cs[0].args[0]) == norm(tup[0].targets[0].elts[0])
+    good = good and len(cs) == 1 and len(allargs(cs[0])) == 1 and tup and norm(allargs(cs[0])[0]) == norm(tup[0].targets[0].elts[0])
     ctx.check(bool(good), key(gv, "clash test"), "the clash test does not compare the template locals with the *emitted Python parameter names* of the method (GraphQL spellings such as $Query differ from the parameter `query`)", gv.loc(),
               okmsg="clash test uses the emitted parameter names of this method")
     # every name the templates bind or read
